@@ -2,6 +2,7 @@ package main
 
 import (
 	"bufio"
+	"bytes"
 	"encoding/json"
 	"flag"
 	"fmt"
@@ -101,6 +102,18 @@ func renderings(mode string, line int) []xast.Opts {
 		return []xast.Opts{a}
 	}
 	return []xast.Opts{f}
+}
+
+// uriVariant: the models name namespace URIs u1, u2, u3 (opaque strings).  Cases that carry namespaces are run a second
+// time with realistic URIs that differ only in a trailing '/', and only in letter case: three DIFFERENT URIs.
+func uriVariant(raw []byte) []byte {
+	if !bytes.Contains(raw, []byte(`"u1"`)) && !bytes.Contains(raw, []byte(`"u2"`)) && !bytes.Contains(raw, []byte(`"u3"`)) {
+		return nil
+	}
+	v := bytes.ReplaceAll(raw, []byte(`"u1"`), []byte(`"http://ex.org/ns/"`))
+	v = bytes.ReplaceAll(v, []byte(`"u2"`), []byte(`"http://ex.org/ns"`))
+	v = bytes.ReplaceAll(v, []byte(`"u3"`), []byte(`"HTTP://EX.ORG/NS/"`))
+	return v
 }
 
 // unicodeVariants returns copies of an expression text in which the characters INSIDE string literals
@@ -578,6 +591,9 @@ func cmdReplay(args []string) {
 			defer wg.Done()
 			for j := range jobs {
 				w.runCase(j.line, j.raw)
+				if v := uriVariant(j.raw); v != nil {
+					w.runCase(j.line, v)
+				}
 				w.curAt.Store(0)
 			}
 		}()
